@@ -502,8 +502,8 @@ def scenario(ctx, st, version, rng, cases, meta):
         if back != pt:
             ctx.violation({'client': 'pie', 'what': 'encrypt-decrypt-roundtrip'}, {'version': version.name, 'plaintext': pt.hex(), 'got': repr(back)},
                           'decrypt(encrypt(x)) through the client and the real server is not x')
-    hk = call('create', algorithm=CA.HMAC_SHA256, length=256, operation_policy_name=None, name=None,
-              cryptographic_usage_mask=[CUM.MAC_GENERATE, CUM.MAC_VERIFY])
+    hk = call('register', managed_object=D.pobjects.SymmetricKey(CA.HMAC_SHA256, 256, D.gen_bytes(rng, 32, 32),
+                                                                 masks=[CUM.MAC_GENERATE, CUM.MAC_VERIFY], name='hmac' + D.gen_text(rng, 1, 5)))
     if hk is not None:
         call('activate', uid=hk)
         call('mac', data=D.gen_bytes(rng, 0, 30), uid=hk, algorithm=CA.HMAC_SHA256)
@@ -522,7 +522,10 @@ def scenario(ctx, st, version, rng, cases, meta):
             call('signature_verify', message=msg + b'!', signature=sig, uid=pub, cryptographic_parameters=sp)
         call('get', uid=pub, key_wrapping_specification=None)
         call('get', uid=priv, key_wrapping_specification=None)
-    call('derive_key', object_type=enums.ObjectType.SYMMETRIC_KEY, unique_identifiers=[uid], derivation_method=enums.DerivationMethod.HASH,
+    dk = call('create', algorithm=CA.AES, length=128, operation_policy_name=None, name=None, cryptographic_usage_mask=[CUM.DERIVE_KEY])
+    if dk is not None:
+        call('activate', uid=dk)
+    call('derive_key', object_type=enums.ObjectType.SYMMETRIC_KEY, unique_identifiers=[dk or uid], derivation_method=enums.DerivationMethod.HASH,
          derivation_parameters={'cryptographic_parameters': {'hashing_algorithm': enums.HashingAlgorithm.SHA_256}},
          cryptographic_length=128, cryptographic_algorithm=CA.AES)
     for _ in range(3):
